@@ -535,6 +535,13 @@ func GenFileSpec(r *Rng, depth, maxDepth int, aligned bool) *uefigen.File {
 // would need their decoding at ParseCLI time).
 var Compressed = true
 
+// LargeSectioned switches on files WITH sections written in the FFSv3 large form (attribute bit 0,
+// size field 0xFFFFFF, 64-bit size, 32-byte header) although smaller than 16 MiB. Every save
+// rewrites such a file in the small form, also in volumes no operation names: the byte-level
+// expectations of p_c03 ("bytes outside the named volumes", "remove_pad keeps offsets") do not
+// apply to them, so the C03 executor uses them for the model correspondence only.
+var LargeSectioned = false
+
 // Patterns switches regular-expression arguments on for remove / remove_pad / replace_pe32.
 var Patterns = true
 
@@ -580,6 +587,10 @@ func GenVolSpec(r *Rng, depth, maxDepth int, aligned bool) *uefigen.Vol {
 		// opaque files in the FFSv3 large form (size field 0xFFFFFF + 64-bit size) although small
 		for _, f := range v.Files {
 			if f.Secs == nil && r.Chance(1, 2) {
+				f.LargeForm = true
+			} else if LargeSectioned && f.Secs != nil && r.Chance(1, 3) {
+				// a file with sections in the large form although small (legal FFSv3): Assemble
+				// rebuilds it, SetSize must clear the large attribute with the header
 				f.LargeForm = true
 			}
 		}
@@ -744,7 +755,12 @@ func genPattern(r *Rng, reg *uefigen.Region, withVols bool) (string, []string) {
 	}
 	seen := map[string]bool{}
 	var set []string
-	for _, t := range files {
+	cands := files
+	if withVols {
+		// FVName of a volume without an extended header is the zero GUID
+		cands = append(append([]string{}, files...), GuidText([16]byte{}))
+	}
+	for _, t := range cands {
 		if m(t) && !seen[t] {
 			seen[t] = true
 			set = append(set, t)
